@@ -14,16 +14,18 @@ CASES = {
     "cp2k": [
         dict(d0=3.0, v=0.5, box0=30.0, boxes=None, intf=(2.0, 3.0, 4.4), maxlen=6, sub=1),
         dict(d0=3.0, v=-0.25, box0=30.0, boxes=None, intf=(2.2, 3.0, 9.0), maxlen=5, sub=2),
+        dict(d0=3.0, v=0.5, box0=30.0, boxes=None, intf=(-9.0, 0.0, 9.0), maxlen=4, sub=1, op="distvel"),
     ],
     "gromacs": [
         dict(d0=1.0, v=0.25, box0=3.0, boxes=[3.0], intf=(0.4, 1.0, 1.45), maxlen=6, sub=1),
         dict(d0=1.25, v=0.125, box0=3.0, boxes=[4.0, 3.0], intf=(0.4, 1.0, 1.9), maxlen=5, sub=1),
         dict(d0=1.0, v=-0.125, box0=3.0, boxes=[2.0, 3.0], intf=(0.45, 1.0, 2.5), maxlen=6, sub=2),
+        dict(d0=1.0, v=0.25, box0=3.0, boxes=[3.0], intf=(-9.0, 0.0, 9.0), maxlen=4, sub=1, op="distvel"),
     ],
 }
 MENUS = {
-    "cp2k": ("frame", "pos", "vel", "2frames", "stay", "finish", "die"),
-    "gromacs": ("frame", "2frames", "stay", "finish", "die"),
+    "cp2k": ("frame", "pos", "vel", "2frames", "stay", "finish", "die", "sig"),
+    "gromacs": ("frame", "2frames", "stay", "finish", "die", "sig"),
 }
 
 
@@ -63,6 +65,10 @@ def run_one(kind, ch, case, reverse, wd, menu):
         box_len = None
     eng.exe_dir = wd
     eng.order_function = Distance((0, 1), periodic=True)
+    if case.get("op") == "distvel":
+        from infretis.classes.orderparameter import Distancevel
+
+        eng.order_function = Distancevel((0, 1), periodic=True)
     eng.rgen = np.random.default_rng(5)
     eng.subcycles = case["sub"]
     path = Path(maxlen=case["maxlen"])
@@ -79,6 +85,8 @@ def run_one(kind, ch, case, reverse, wd, menu):
         raised = str(e)
     except watchdog.Hang as e:
         raised = "HANG: " + str(e)
+    except Exception as e:  # noqa: BLE001 - any other exception is judged like a raise
+        raised = f"{type(e).__name__}: {e}"
     finally:
         world.unpatch()
     return dict(path=path, success=success, raised=raised, world=world, prog=progs[0] if progs else None, eng=eng,
@@ -101,7 +109,7 @@ def judge(kind, r, case, reverse):
         frames = [(p, v, np.array([[0.0, 30.0]] * 3)) for (p, v, b) in frames]
     else:
         frames = [(p, v, np.array([[0.0, b[0, 0]], [0.0, b[1, 1]], [0.0, b[2, 2]]])) for (p, v, b) in frames]
-    ref_orders, ref_success = reference(frames, left, right, case["maxlen"])
+    ref_orders, ref_success = reference(frames, left, right, case["maxlen"], op=case.get("op", "dist"), vel_rev=reverse)
     written = min(prog.kp, prog.kv) if kind == "cp2k" else len(prog.written)
     died = proc.returncode not in (0, None) and not proc.killed
     if r["raised"] is not None:
